@@ -39,6 +39,7 @@ def run(pid, t, replay=None):
         scns = list(cases)
         scns += gen_ledger.needed_grid_scenarios()
         scns += [gen_ledger.lottery_scenario(rnd, i) for i in range(N[t]["lottery"])]
+        scns += [gen_ledger.gap_payout_scenario(rnd) for i in range(N[t]["lottery"] // 6)]
         scns += gen_ledger.scenarios(seed() + 8, N[t]["economy"])
     spath = os.path.join(wd, "scenarios.jsonl")
     with open(spath, "w") as f:
@@ -106,7 +107,7 @@ def run(pid, t, replay=None):
         rule="non-trivial = gating case (path shape x work relative to requirement x elapsed-time class, all 462 from MC_Work) or "
              "lottery scenario (distinct ticket seed over blocks of routed fee-paying transactions); economy scenarios add payouts "
              "across forks, rebroadcasts and ticket gaps; the requirement function is sampled on a boundary grid",
-        exercised=st, samples=[scns[0], scns[len(cases) + 8]], exhaustive=False,
+        exercised=st, samples=[scns[0], scns[min(len(cases) + 8, len(scns) - 1)]], exhaustive=False,
         design_invariants=WINV[1:],
         divergences_this_property=len(mine), known_findings_matched=len(set(k["id"] for k in known_hits)),
         checker_cmd="tlc MC_Work.tla (cases + design-level invariants); harness/bin/ledger; tlc LedgerTrace.tla (TV)",
